@@ -73,6 +73,8 @@ func CommonDiscards(e *wref.Events, off func(string) bool) string {
 		return "known:int-div-overflow"
 	case e.NegOverflow > 0 && off("neg.overflow"):
 		return "known:int-neg-overflow"
+	case e.DotIntOverflow > 0 && off("dot.int.overflow"):
+		return "known:dot-int-overflow" // finding C04-4 (tag carries the msl. prefix)
 	}
 	return ""
 }
